@@ -184,6 +184,11 @@ fn gen_case(src: &mut Src, st: &mut Stats, _env: &Env) -> CaseResult {
         crate::imp::ast_route_agrees("gen", &tree, &text, &doc_text, src)?;
         st.class("hand-built-ast-route");
     }
+    // the same document handed in through every conversion route
+    if src.chance(50) {
+        crate::imp::data_routes_agree("gen", &text, &doc_text, src.u64())?;
+        st.class("data-in-routes");
+    }
     if c.nontrivial {
         let key = format!("{}\u{0}{}", text, doc_text);
         if st.nontrivial(&key) {
